@@ -8,8 +8,11 @@ IMPORTS = ["Lib.Base", "Lib.PyStr", "Model.Session", "Model.SessionCheck"]
 
 
 def one_history(ctx, rng, plan, oidc, roi, observers, label, fixed_ops=None, rules="explicit", empty3=False, deny=False,
-                two_redirects=False):
-    rs = sess.RealSession(oidc=oidc, revoke_refresh_on_issue=roi, rules=rules, empty3=empty3, deny=deny, two_redirects=two_redirects)
+                two_redirects=False, remove_inactive=False):
+    """remove_inactive: the provider runs with session_params.remove_inactive_token (the model's c_remove_inactive)"""
+    rs = sess.RealSession(oidc=oidc, revoke_refresh_on_issue=roi, rules=rules, empty3=empty3, deny=deny, two_redirects=two_redirects,
+                          remove_inactive=remove_inactive)
+    ctx.count("remove_inactive_token:" + ("on" if remove_inactive else "off (default)"))
     if two_redirects:
         ctx.count("registered-redirect-uris-per-client:2")
     ctx.count("deny_unknown_scopes:" + ("provider-on/client_1-off" if deny else "off"))
@@ -43,8 +46,10 @@ def one_history(ctx, rng, plan, oidc, roi, observers, label, fixed_ops=None, rul
             fin = getattr(ob, "finish", None)
             if fin:
                 fin(rs, rec)
-        term = "(%s, %s, %s, %s, %s, %s)" % (coq_bool(oidc), coq_bool(roi), coq_bool(empty3), coq_bool(rules == "handler"), coq_list(pairs), sess.coq_state(rs))
-        record = {"label": label, "oidc": oidc, "revoke_refresh_on_issue": roi, "usage_rules": rules, "client_12_allowed_empty": empty3, "deny_unknown_scopes": deny, "ops": rec}
+        term = "(%s, %s, %s, %s, %s, %s, %s)" % (coq_bool(oidc), coq_bool(roi), coq_bool(empty3), coq_bool(rules == "handler"),
+                                                 coq_bool(remove_inactive), coq_list(pairs), sess.coq_state(rs))
+        record = {"label": label, "oidc": oidc, "revoke_refresh_on_issue": roi, "usage_rules": rules, "client_12_allowed_empty": empty3, "deny_unknown_scopes": deny,
+                  "remove_inactive_token": remove_inactive, "ops": rec}
         logs = iter(rs.cookie_log)
         for op, out in rec:
             ctx.count("op:" + op[0])
@@ -129,12 +134,15 @@ def cookie_structured(scope_variants=True):
     return cases
 
 
-def run_histories(ctx, n_random, length, observers_factory, structured=(), seed_label="rnd", focus_of=None, cookie=False, front=0.0):
+def run_histories(ctx, n_random, length, observers_factory, structured=(), seed_label="rnd", focus_of=None, cookie=False, front=0.0,
+                  remove_inactive_of=None):
     """focus_of(i): the shape of the i-th random history ("mixed", "multi" or "cookie", see sess.gen_history); default: all
     mixed.  cookie: the providers register two redirect_uris per client and the random part of every history contains
     authorization requests that carry a session cookie (needs observers that understand the "authzc" operation)
     front: the share of the authorization requests of the random part that use an implicit / hybrid response type (needs
-    observers that understand the "authzr" operation)"""
+    observers that understand the "authzr" operation)
+    remove_inactive_of(i): does the provider of the i-th random history run with session_params.remove_inactive_token
+    (default: none does); a structured history asks for it with {"remove_inactive": True} in its sixth component"""
     rng = ctx.rng
     cases = []
     k = 0
@@ -152,6 +160,7 @@ def run_histories(ctx, n_random, length, observers_factory, structured=(), seed_
         ctx.count("history-shape:" + focus)
         plan = sess.gen_history(rng, rng.randint(*length), focus=focus, p_cookie=0.4 if cookie else 0.0, p_front=front)
         cases.append(one_history(ctx, rng, plan, oidc, roi, observers_factory(), "%s-%d" % (seed_label, i), rules=RULES[(i // 3) % 5],
-                                 empty3=(i % 4 == 1), deny=(i % 4 == 3), two_redirects=cookie))
+                                 empty3=(i % 4 == 1), deny=(i % 4 == 3), two_redirects=cookie,
+                                 remove_inactive=bool(remove_inactive_of and remove_inactive_of(i))))
     ctx.coq_check_cases(IMPORTS, "hist", "chk_hist", cases, shard=12, label="hist", diag="diag_hist")
     return cases
